@@ -171,6 +171,19 @@ CHECKS = {
              "count as diagnostics).",
         technique="TLA+ pipeline spec (Totality) + TLC request enumeration, in-process replay, trace validation of outcomes",
         design="4 (C18)"),
+    "C15": dict(
+        text="The references every real expansion makes without going through `derive_more::` / `::` / its own bindings / the "
+             "user's tokens are extracted in-process from the working tree (syn visitor over the generated code, macro bodies "
+             "included) for 89 code paths of the 50 derives and handed to TLC as a generated constants module; Hygiene.tla "
+             "decides for every reference x scope (ordinary, no prelude, each prelude name / macro / extern crate shadowed) "
+             "whether it still resolves to the intended item. Every code path is also compiled twice with the real derive - in an "
+             "ordinary module and in a hostile one (#![no_implicit_prelude], only ::derive_more imported, local items and "
+             "macro_rules named like every prelude type/variant/trait/macro, local modules core/std/alloc) - and one call per "
+             "generated method must give the same result in both.",
+        note="code paths are the table lib/props/c15_cases.py; the hostile scope is one combined scope for rustc (single "
+             "shadows are decided on the extracted references by TLC); rustc's name resolution is the ground truth.",
+        technique="TLA+ spec (Hygiene) over references extracted from real expansions + hostile-scope twin probes",
+        design="4 (C15)"),
 }
 
 NOT_YET = {}
